@@ -541,16 +541,14 @@ namespace Dune
     // Distance to copy to the left.
     size_t distance = start_/chunkSize_;
     if(distance>0) {
-      // Number of chunks with entries in it;
-      size_t chunks = ((start_%chunkSize_ + size_)/chunkSize_ );
-
-      // Copy chunks to the left.
-      std::copy(chunks_.begin()+distance,
-                chunks_.begin()+(distance+chunks), chunks_.begin());
+      // Move all chunks to the left by dropping the (already deallocated)
+      // leading ones. This includes a partially filled last chunk and
+      // keeps chunks_ and capacity_ consistent for push_back.
+      chunks_.erase(chunks_.begin(), chunks_.begin()+distance);
 
       // Calculate new parameters
       start_ = start_ % chunkSize_;
-      //capacity += distance * chunkSize_;
+      capacity_ -= distance * chunkSize_;
     }
   }
 
